@@ -1,25 +1,5 @@
-//@ unit: schema_graph
-//@ inject-into: serde_avro_fast/src/schema/safe/canonical_form.rs
-//@ anchor: serde_avro_fast/src/schema/safe/canonical_form.rs :: fn write_canonical_form\(
-//@ anchor: serde_avro_fast/src/schema/safe/canonical_form.rs :: pub fn canonical_form_rabin_fingerprint\(&self\) -> Result<\[u8; 8\], SchemaError>
-//@ include: common
-
-// ---------------------------------------------------------------------------------------------
-// C19 (totality of schema construction on arbitrary node graphs) and C08 (canonical form text):
-// the real generic `WriteCanonicalFormState<W>::write_canonical_form`, instantiated with a
-// counting writer (termination / totality) and with a small recording writer (text).
-// ---------------------------------------------------------------------------------------------
-
-use crate::schema::safe::{Array, Map, SchemaNode, Union};
-
-/// fmt::Write that only counts (keeps the CRC table loop out of the unwinding)
-struct CountW(usize);
-impl Write for CountW {
-	fn write_str(&mut self, s: &str) -> std::fmt::Result {
-		self.0 = self.0.wrapping_add(s.len());
-		Ok(())
-	}
-}
+// NOT LOADED: the symbolic all-graphs version of the C19 contract (does not finish in 2400 s even for 2-node graphs:
+// symbolic indices into the heap-allocated node vector). Replaced by concrete graphs; listed under not_decided.
 
 /// an arbitrary unnamed node: long | array(k) | map(k) | union[k1, k2]  with arbitrary keys 0..=3
 /// (2 is dangling in a 2-node graph; self references and cycles of any shape are included)
@@ -96,24 +76,3 @@ fn c19_canonical_form_total() {
 	std::mem::forget(r);
 }
 
-//@ harness: c19_schema_graph_canary
-//@   props: C19
-//@   tier: quick
-//@   kind: canary
-#[kani::proof]
-#[kani::unwind(4)]
-#[kani::stub(alloc::fmt::format, stub_format)]
-#[kani::stub(core::fmt::write, stub_fmt_write)]
-fn c19_schema_graph_canary() {
-	let mut nodes = Vec::with_capacity(1);
-	nodes.push(any_node());
-	let schema = std::mem::ManuallyDrop::new(SchemaMut::from_nodes(nodes));
-	let mut state = std::mem::ManuallyDrop::new(WriteCanonicalFormState {
-		w: ErrorConversionWriter(CountW(0)),
-		named_type_written: vec![false; 1],
-		unnamed_type_being_written: vec![false; 1],
-	});
-	let r = state.write_canonical_form(&schema, SchemaKey::from_idx(0));
-	assert!(r.is_err(), "OBL canary");
-	std::mem::forget(r);
-}
